@@ -122,16 +122,29 @@ def check_case(run, case, tier='quick'):
         if len(U.pops) >= 4:
             kq = rng.randint(2, len(U.pops) - 1)
             fired = {}
-            def trig(ev, ctx, kq=kq, fired=fired):
-                if ev[0] == 'POP' and ev[1] == kq and 'x' not in fired:
+            # the quit lands at a pre-terminal boundary or - where the stream has Markov levels of several strings - in the middle of such a level, so that the
+            # resumed run begins with the remainder of the level
+            inside_markov = [(i, len(gs)) for i, (key, prob, gs) in enumerate(Upg) if key[0] == ('M',) and len(gs) >= 4]
+            mk = rng.choice(inside_markov) if inside_markov and rng.random() < 0.6 else None
+            def trig(ev, ctx, kq=kq, fired=fired, mk=mk):
+                if 'x' in fired:
+                    return
+                if mk is None and ev[0] == 'POP' and ev[1] == kq:
+                    fired['x'] = ctx.deliver('q')
+                elif mk is not None and ev[0] == 'GUESS' and ev[3] == mk[0] and ev[4] == max(1, mk[1] // 3):
                     fired['x'] = ctx.deliver('q')
             session.drop_session(sn)
             A = session.run_main(['-r', name, '-s', sn] + fl, trigger=trig)
             if fired.get('x') and 'Done processing' not in A.stderr:
+                if mk is not None:
+                    run.ev('limit_on_sessions_resumed_inside_a_markov_level')
                 sav = open(session.session_files(sn)[0]).read()
+                omn = open(session.session_files(sn)[1], 'rb').read() if os.path.exists(session.session_files(sn)[1]) else None
                 Bref = session.run_main(['-r', name, '-s', sn, '--load'])
-                for n in sorted({1, 2, max(1, len(Bref.guesses) // 2), max(1, len(Bref.guesses) - 1), len(Bref.guesses) + 3, len(A.guesses) + 1, max(1, len(A.guesses) - 1)}):
+                for n in sorted({1, 2, 3, max(1, len(Bref.guesses) // 2), max(1, len(Bref.guesses) - 1), len(Bref.guesses) + 3, len(A.guesses) + 1, max(1, len(A.guesses) - 1)}):
                     open(session.session_files(sn)[0], 'w').write(sav)
+                    if omn is not None:
+                        open(session.session_files(sn)[1], 'wb').write(omn)
                     r = session.run_main(['-r', name, '-s', sn, '--load', '-n', str(n)], max_guesses=len(Bref.guesses) + 1000)
                     run.ev('limit_runs'); run.ev('limit_on_resumed_session_runs')
                     if r.guesses != Bref.guesses[:n]:
